@@ -394,11 +394,34 @@ def _opens(t):
 c.ensure('fails_exactly_when_the_current_token_is_not_an_opening_bracket',
          lambda x: x.result.items[0].e == _opens(cur(x.self_old)))
 c.raise_case('bad_separator', 'SyntaxError')
+# C02 ("near misses of a Python literal are rejected"): `[1 2]` is not a literal.  Ghost `sep`:
+# did the iteration just finished end by consuming a ',' (its last call was _advance, entered with
+# the current token ',')?  An item may only be followed by that, or by the closing bracket.
+c.ghost_vars['sep'] = lambda x: VBool(False)
+
+
+def _cont_body_start(ex, x, k):
+  x.ghost['container_trace_len_at_body_start'] = len(x.trace)
+
+
+def _cont_ghost_step(ex, x, k):
+  evs = x.trace[x.ghost.get('container_trace_len_at_body_start', 0):]
+  sep = z3.BoolVal(False)
+  if evs and evs[-1].get('call') == 'config_parser.py::ConfigParser._advance' and \
+      'self' in evs[-1]['args']:
+    sep = cur(evs[-1]['args']['self']).fields['string'].e == sym.str_lit(',')
+  ex.frame.env['ghost_sep'] = VBool(sep)
+
+
 c.loop(('self._current_token.string != close_bracket', None), [Clause(
     'cursor_only_moves_forward', lambda x, k: z3.And(
         synced(x.env.self), gen(x.env.self) == gen(x.self_old),
-        pos(x.env.self) > pos(x.self_old)))],
-       havoc=['self._current_token', 'self.ghost_pos'])
+        pos(x.env.self) > pos(x.self_old))), Clause(
+            'items_are_separated_by_commas', lambda x, k: z3.Or(
+                x.env['values'].len == 0, x.env.ghost_sep.e,
+                cur(x.env.self).fields['string'].e == x.env.close_bracket.e))],
+       havoc=['self._current_token', 'self.ghost_pos'], ghost=['sep'],
+       body_start=_cont_body_start, ghost_step=_cont_ghost_step)
 register(c)
 
 c = _parser_contract('_parse_dict_item', ['C02'])
